@@ -25,9 +25,8 @@ Alphabet ==
   {EofLine(k) : k \in 0..(MaxLines - 1)}
   \cup {Ln(1, "eof", 0, 0, 0)}
   \cup {Ln(0, "shebang", 1, 0, 0), Ln(0, "other", 1, 0, 0), Ln(1, "other", 1, 0, 0), EmptyLine}
-  \cup (IF Rich THEN {Ln(0, "eof", 0, 0, 1), Ln(1, "shebang", 1, 0, 0), Ln(0, "other", 2, 1, 0), Ln(1, "blank", 0, 0, 0),
-                      Ln(2, "other", 1, 0, 0), Ln(2, "eof", 1, 0, 0), Ln(0, "other", 1, 0, 1),
-                      Ln(2, "blank", 0, 0, 0), Ln(0, "open", 0, 0, 0)}
+  \cup (IF Rich THEN {Ln(0, "eof", 0, 0, 1), Ln(1, "shebang", 1, 0, 0), Ln(0, "other", 2, 1, 0),
+                      Ln(1, "blank", 0, 0, 0), Ln(2, "other", 1, 0, 0), Ln(0, "open", 0, 0, 0)}
         ELSE {})
 
 (* staging leaves: remote inputs 1, 2 -> local 3, 4; local outputs 5, 6 -> remote 7, 8; 9 a plain
@@ -37,11 +36,10 @@ K2 == Leaf(Id(KPlain, 1, 2))
 InLeaves == {Leaf(Id(KStage, 3, 1)), Leaf(Id(KStage, 4, 2)), Leaf(Id(KStage, 2, 2))}
             \cup (IF Rich THEN {Leaf(Id(KSDir, 4, 2))} ELSE {})
 OutLeaves == {Leaf(Id(KStdout, 0, 0)), Leaf(Id(KStage, 5, 7)), Leaf(Id(KFile, 0, 9))}
-             \cup (IF Rich THEN {Leaf(Id(KPlain, 0, 1)), Leaf(Id(KStage, 6, 8)), Leaf(Id(KSDir, 6, 8))} ELSE {})
+             \cup (IF Rich THEN {Leaf(Id(KPlain, 0, 1)), Leaf(Id(KSDir, 6, 8))} ELSE {})
 Containers(P) ==
   {ListV(s) : s \in TuplesUpTo(P, 2)}
   \cup {DictV(<<>>, <<>>)} \cup {DictV(<<K1>>, <<a>>) : a \in P} \cup {DictV(<<K1, K2>>, <<a, b>>) : a, b \in P}
-  \cup (IF Rich THEN {TupleV(s) : s \in TuplesUpTo(P, 2)} ELSE {})
 Out1 == Containers(OutLeaves)
 Ins == {ListV(s) : s \in TuplesUpTo(InLeaves \cup {ListV(t) : t \in TuplesUpTo(InLeaves, 2)}, 2)}
        \cup (IF Rich THEN {TupleV(s) : s \in TuplesUpTo(InLeaves, 2)} ELSE {})
@@ -56,11 +54,16 @@ NullCase == Case(<<EmptyLine>>, ListV(<<>>), Leaf(Id(KStdout, 0, 0)), FALSE)
 \* (depth 0 / 1) and every depth-2 output whose first child is b
 CmdBlocks == {<<"c", a>> : a \in Alphabet}
 IoBlocks == {<<"i", b>> : b \in {Leaf(1)} \cup OutLeaves \cup Out1}
-Blocks == CASE Mode = "cmd" -> CmdBlocks [] Mode = "io" -> IoBlocks [] OTHER -> CmdBlocks \cup IoBlocks
+TupleBlocks == IF Rich THEN {<<"t", b>> : b \in OutLeaves \cup Out1} ELSE {}
+Blocks == CASE Mode = "cmd" -> CmdBlocks [] Mode = "io" -> IoBlocks \cup TupleBlocks
+            [] OTHER -> CmdBlocks \cup IoBlocks \cup TupleBlocks
 BlockCases(bb) ==
   LET b == bb[2] IN
   IF bb[1] = "c"
   THEN {Case(<<b>> \o tl, ListV(<<>>), Leaf(Id(KStdout, 0, 0)), FALSE) : tl \in TuplesUpTo(Alphabet, MaxLines - 1)}
+  ELSE IF bb[1] = "t"          \* tuples: of one or two leaves, and around / inside one other container
+  THEN {Case(OneLine, DefaultIns, o, FALSE) :
+          o \in {TupleV(<<b>> \o tl) : tl \in TuplesUpTo(OutLeaves, 1)} \cup {ListV(<<TupleV(<<b>>)>>)}}
   ELSE IF b = Leaf(1)
        THEN {Case(OneLine, i, DefaultOuts, FALSE) : i \in Ins}
             \cup {Case(OneLine, i, DefaultOuts, TRUE) : i \in IF Rich THEN Ins ELSE {DefaultIns}}
@@ -68,7 +71,7 @@ BlockCases(bb) ==
             \cup {Case(OneLine, DefaultIns, o, FALSE) :
                     o \in {ListV(<<b>> \o tl) : tl \in TuplesUpTo(OutLeaves \cup Out1, 1)}
                           \cup {DictV(<<K1>>, <<b>>)} \cup {DictV(<<K1, K2>>, <<b, c>>) : c \in OutLeaves \cup Out1}
-                          \cup (IF Rich THEN {TupleV(<<b>> \o tl) : tl \in TuplesUpTo(OutLeaves \cup Out1, 1)} ELSE {})}
+                   }
 
 VARIABLE blk
 gvars == <<vars, blk>>
